@@ -17,6 +17,33 @@ TEXT = {
         "note": COMMON_NOTE,
         "technique": "Lean 4 proof (invariant + refinement) of the Model; differential correspondence Model vs code",
     },
+    "C02": {
+        "level": "Theorems: the chunking law of resumable uploads (for every payload and every request sequence carrying parts of it the buffer stays a prefix "
+                 "and every completion hands over exactly the payload — induction over the request list), upload-then-read round trip, rejected MD5 mismatch, "
+                 "whole-object overwrite, delete and frame; tied to the code by driving all upload protocols, URL forms and both stores with real HTTP requests.",
+        "note": COMMON_NOTE + " URL parsing, multipart and gzip decoding are exercised by the correspondence check, not modelled.",
+        "technique": "Lean 4 proof (induction, round-trip laws) of the Model; differential correspondence over real HTTP handlers",
+    },
+    "C04": {
+        "level": "Theorems stating the decision logic outright: validateConds passes iff every supplied condition holds, 304 only for a failed not-match, 412 only for a "
+                 "failed match/must-not-exist, absent objects, unparsable values, and a frame theorem over every request kind (any failure response leaves buckets and clock "
+                 "unchanged); tied to the code by condition combinations inside random histories on both stores.",
+        "note": COMMON_NOTE,
+        "technique": "Lean 4 proof (decision logic + frame theorem by cases on all ops); differential correspondence",
+    },
+    "C10": {
+        "level": "Theorems over all histories: an invariant (every stored generation <= logical clock) preserved by every request, clock monotonicity, hence a new generation exceeds "
+                 "every generation any object had in any earlier state; patch keeps generation/content/MD5 and adds one to metageneration; a classification of all possible store "
+                 "changes (Evolves). Tied to the code by histories with back-to-back writes on both stores, comparing all reporting places.",
+        "note": COMMON_NOTE + " The Model's generation is a logical clock; real generations are compared by rank.",
+        "technique": "Lean 4 proof (invariant by induction over request programs); differential correspondence",
+    },
+    "C15": {
+        "level": "Theorems: composed content is the in-order concatenation of the sources' pre-state contents (induction over the source list), missing source and >32 sources fail, "
+                 "destination-among-sources, frame for all other objects; copy clones content/MD5/metadata with a fresh generation and leaves the source. Tied to the code on both stores.",
+        "note": COMMON_NOTE,
+        "technique": "Lean 4 proof (induction over source lists, frame lemmas); differential correspondence",
+    },
 }
 
 NOT_APPLICABLE = {("C%02d" % i): "check not built yet in this session (work in progress; see DESIGN.md section 8)" for i in range(1, 21)}
